@@ -52,6 +52,8 @@ fn main() {
         "C14" => {
             let n = params.share(if th { 100_000 } else { 2_400 });
             Drive { params: &params, stats: &mut stats, known: &known }.run("c14.transparency", 14, c14::strategy(), n, |c, s| c14::eval(&rig, c, s));
+            let n = params.share(if th { 6_000 } else { 240 });
+            Drive { params: &params, stats: &mut stats, known: &known }.run("c14.storm", 141, c14::storm_strategy(), n, |c, s| c14::eval(&rig, c, s));
             (c14::RULE.into(), e2e_assumptions)
         }
         "C15" => {
